@@ -190,6 +190,10 @@ pub fn run_line(line: &str) -> String {
     // optional 7th token `L`: every crash record also carries the records of the log found in the image
     // (`B<tid>` `C` `A` `E`, `O` for any data or catalog operation), joined by `.`, before a `#`
     let with_log = head.get(6).copied() == Some("L");
+    // Images in which the data file is ahead of the last completed checkpoint (the recorded finding) are not opened -
+    // torn pages can trip the engine's unsafe-precondition checks and abort the process - unless the case asks for it
+    // with an 8th token `W` (the finding's witness does).
+    let open_windows = head.get(7).copied() == Some("W") || head.get(6).copied() == Some("W") || head.get(5).copied() == Some("W");
 
     let dir = crate::wal::scratch_dir("crash");
     let live = dir.join("live");
@@ -296,6 +300,14 @@ pub fn run_line(line: &str) -> String {
         let j = bounds.iter().filter(|&&(_, a)| a <= k).count();
         let f = bounds.get(j).map(|&(b, a)| b < k && k < a).unwrap_or(false);
         let w = in_window(&events[base..k]);
+        if w && !open_windows {
+            let body = format!("{}@{}@1@skipped@ok", j, if f { 1 } else { 0 });
+            match recs.last_mut() {
+                Some((_, k2, b)) if *b == body => *k2 = k,
+                _ => recs.push((k, k, body)),
+            }
+            continue;
+        }
         materialise(&img, &img_dir);
         let ipath: PathBuf = img_dir.join("db.axm");
         if verbose {
@@ -361,6 +373,7 @@ pub fn run_line(line: &str) -> String {
                         for e in &ev2[..j2] { apply(&mut img2, e); }
                         materialise(&img2, &img2_dir);
                         let w2 = w || in_window(&ev2[..j2]);
+                        if w2 && !open_windows { j2 += nested; continue; }
                         let bad = match open_db(&img2_dir.join("db.axm"), reopen_cfg) {
                             Err(e) => Some(e),
                             Ok(db3) => {
